@@ -1,0 +1,60 @@
+//go:build verif
+
+package io
+
+// Machine-checked contracts for package io (read by /verif/znvc; comment-only, compiled to nothing).
+// C17: a source is decoded losslessly or rejected.
+
+//@ iface Reader.Read(self, p) (n, err)
+//@   modifies mem(p)
+//@   ensures 0 <= n && n <= len(p)
+
+//@ globalinv errInvalidUTF8 nonnil
+
+//@ external errors.New(text) (e)
+//@   modifies nothing
+//@   ensures e != nil
+
+// readRune: the returned remainder is empty, or it is exactly the buffer on which the last decoding attempt failed
+// with an invalid / incomplete sequence (RuneError of size <= 1). A well-formed U+FFFD never stops decoding.
+//@ func readRune
+//@   requires r != nil && b >= 0 && b <= 1073741824
+//@   modifies mem(remains)
+//@   ensures [remainder-is-undecodable] r2 == nil && len(r1) > 0 ==>
+//@             @DecodeRune#1.done && @DecodeRune#1.arg0 == r1 && @DecodeRune#1.r0 == 65533 && @DecodeRune#1.r1 <= 1
+//@   loop 1 invariant (rs.base == 0 || fresh(rs))
+//@   loop 1 decreases len(buf)
+// lossless step: each pass decodes the current buffer, appends exactly that rune and drops exactly its bytes
+//@   loop 1 step [decodes-front] @DecodeRune#1.arg0 == prev(buf) && len(rs) == prev(len(rs)) + 1 && rs[prev(len(rs))] == @DecodeRune#1.r0
+//@   loop 1 step [drops-its-bytes] buf.base == prev(buf.base) && buf.off == prev(buf.off) + @DecodeRune#1.r1 && len(buf) == prev(len(buf)) - @DecodeRune#1.r1
+//@   loop 1 step [keeps-decoded] forall i int :: 0 <= i && i < prev(len(rs)) ==> rs[i] == prev(rs[i])
+
+// FileStream.ReadAll: success means every byte of the stream was decoded
+//@ method (*FileStream).ReadAll
+//@   requires f.reader != nil
+//@   modifies *
+//@   ensures [nothing-left-undecoded] r1 == nil ==> len(f.encBuffer) == 0
+//@   loop 1 invariant result.base == 0 || fresh(result)
+//@   loop 1 step [appends-block] len(result) == prev(len(result)) + len(@FileStream_read#1.r0) &&
+//@             (forall i int :: 0 <= i && i < prev(len(result)) ==> result[i] == prev(result[i])) &&
+//@             (forall i int :: 0 <= i && i < len(@FileStream_read#1.r0) ==> result[prev(len(result)) + i] == @FileStream_read#1.r0[i])
+
+//@ method (*FileStream).read
+//@   requires f.reader != nil && n >= 0 && n <= 1073741824
+//@   modifies *
+//@   ensures [remainder-carried] r1 == nil ==> f.encBuffer == @readRune#1.r1 && @readRune#1.arg1 == old(f.encBuffer) && @readRune#1.arg0 == old(f.reader)
+//@   ensures [bom-first-block-only] r1 == nil && old(f.hasRead) ==> r0 == @readRune#1.r0
+//@   ensures [bom-stripped-once] r1 == nil && !old(f.hasRead) ==> f.hasRead &&
+//@             (len(@readRune#1.r0) > 0 && @readRune#1.r0[0] == BOM ? r0 == @readRune#1.r0[1:] : r0 == @readRune#1.r0)
+
+//@ method (*ByteStream).ReadAll
+//@   requires b.reader != nil && b.length >= 0 && b.length <= 1073741824
+//@   modifies *
+
+//@ method (*FileStream).Read
+//@   requires f.reader != nil && n >= 0 && n <= 1073741824
+//@   modifies *
+
+//@ method (*ByteStream).Read
+//@   requires b.reader != nil && n >= 0 && n <= 1073741824
+//@   modifies *
